@@ -318,6 +318,11 @@ class Shelxfile():
                 try:
                     file_included_in_includefile = self._read_included_file(includefiles, line)
                     if file_included_in_includefile:
+                        # The lines of a '+filename' include file belong to that file, not to the res file: they
+                        # are parsed, but not written, otherwise they pile up with every read/write cycle.
+                        first, count = line_num + 1, len(file_included_in_includefile)
+                        self.delete_on_write = {n + count if n >= first else n for n in self.delete_on_write}
+                        self.delete_on_write.update(range(first, first + count))
                         for line_num_includefile, l in enumerate(file_included_in_includefile):
                             reslist_position = line_num + 1 + line_num_includefile
                             # '+filename' include files are not copied to res file,
